@@ -23,7 +23,7 @@ _CONDS = ["_eq_iff", "_concat", "_merge", "_slice_and_copy", "_immutable", "_ann
 
 
 def xh_conditions(tier):
-    t = 100 if tier == "quick" else 240
+    t = 160 if tier == "quick" else 240
     return [dict(name=f"states.{c}", file="xh/c18_states.py", func=c, timeout=t, prop="C18") for c in _CONDS]
 
 
